@@ -576,35 +576,44 @@ fn main() {
     std::panic::set_hook(Box::new(|i| { if std::env::var("HSDBG").is_ok() { eprintln!("PANIC {}", i); } }));
     let dbroot = format!("{}/db", o.out);
     std::fs::create_dir_all(&dbroot).unwrap();
-    let shards = 8usize;
-    let mut emits: Vec<Emit> = (0..shards).map(|_| Emit::new("GTac Node Corr Monitors")).collect();
-    let mut seen = std::collections::HashSet::new();
-    {
-        // the scripted corpus runs first (cases 1000+), then the seeded random cases
-        let scripted: Vec<(usize, Option<&str>)> = SCRIPTS.iter().enumerate().map(|(i, s)| (1000 + i, Some(*s))).collect();
-        let random: Vec<(usize, Option<&str>)> = (0..o.cases).map(|k| (k, None)).collect();
-        let list: Vec<(usize, Option<&str>)> = match (&o.script, o.mode.as_str()) {
-            (Some(s), _) => vec![(1000 + SCRIPTS.iter().position(|x| x == s).unwrap_or(0), SCRIPTS.iter().find(|x| *x == s).copied())],
-            (None, "scripts") => scripted,
-            _ => scripted.into_iter().chain(random.into_iter()).collect(),
-        };
-        for (k, script) in list {
-            if let Some(only) = o.only { if only != k { continue; } }
-            let e = &mut emits[k % shards];
-            // a fresh runtime per case: dropping it ends every task of the case (and releases its RocksDB handles)
-            let rt = tokio::runtime::Builder::new_current_thread().enable_all().start_paused(true).build().unwrap();
-            let (cfg, out) = rt.block_on(run_case(o.seed, k, script, &dbroot, e, o.boost));
-            drop(rt);
-            let stakes: Vec<String> = (0..cfg.n).map(|i| format!("({},{})", i, cfg.stakes[i])).collect();
-            let defs = format!("{}Definition cmt := mkCommittee {}.\nDefinition evs : list (list N * Event) := {}.\nDefinition obs : list Obs := {}.\n",
-                out.defs, coq_list(&stakes), coq_list(&out.evs), coq_list(&out.obs));
-            if out.nontrivial && seen.insert(out.evs.join(";")) { e.stat("distinct_nontrivial", 1); }
-            if ADMISSIBLE.with(|c| c.get()) { e.stat("admissible (within the fault model)", 1); }
-            let c06 = CLEAN_LEADER.with(|c| c.get());
-            let verdict = match c06 { Some(r) => format!("step_verdict cmt {} evs obs ++ [b2n (mon_c06_make obs {})]", cfg.me, r), None => format!("step_verdict cmt {} evs obs ++ [1]", cfg.me) };
-            e.case(k, &defs, &verdict, json!({"case": k, "script": script, "committee_stakes": cfg.stakes, "me": cfg.me, "admissible": ADMISSIBLE.with(|c| c.get()), "events": out.human, "messages_hex": out.hexmsgs}));
-        }
-    }
+    let shards = 16usize;
+    let seen = std::sync::Arc::new(std::sync::Mutex::new(std::collections::HashSet::new()));
+    // the scripted corpus runs first (cases 1000000+), then the seeded random cases
+    let scripted: Vec<(usize, Option<&'static str>)> = SCRIPTS.iter().enumerate().map(|(i, s)| (1_000_000 + i, Some(*s))).collect();
+    let random: Vec<(usize, Option<&'static str>)> = (0..o.cases).map(|k| (k, None)).collect();
+    let list: Vec<(usize, Option<&'static str>)> = match (&o.script, o.mode.as_str()) {
+        (Some(s), _) => vec![(1_000_000 + SCRIPTS.iter().position(|x| x == s).unwrap_or(0), SCRIPTS.iter().find(|x| *x == s).copied())],
+        (None, "scripts") => scripted,
+        _ => scripted.into_iter().chain(random.into_iter()).collect(),
+    };
+    // one worker thread per shard (case k goes to shard k mod 16); every case has its own runtime, network tap (thread-local) and store directory,
+    // and derives all its random choices from (seed, k), so the result does not depend on the number of threads
+    let (seed, boost, only) = (o.seed, o.boost, o.only);
+    let workers: Vec<std::thread::JoinHandle<Emit>> = (0..shards).map(|sh| {
+        let list = list.clone(); let dbroot = dbroot.clone(); let seen = seen.clone();
+        std::thread::Builder::new().stack_size(64 << 20).spawn(move || {
+            let mut emit = Emit::new("GTac Node Corr Monitors");
+            for (k, script) in list {
+                if k % shards != sh { continue; }
+                if let Some(only) = only { if only != k { continue; } }
+                let e = &mut emit;
+                // a fresh runtime per case: dropping it ends every task of the case (and releases its RocksDB handles)
+                let rt = tokio::runtime::Builder::new_current_thread().enable_all().start_paused(true).build().unwrap();
+                let (cfg, out) = rt.block_on(run_case(seed, k, script, &dbroot, e, boost));
+                drop(rt);
+                let stakes: Vec<String> = (0..cfg.n).map(|i| format!("({},{})", i, cfg.stakes[i])).collect();
+                let defs = format!("{}Definition cmt := mkCommittee {}.\nDefinition evs : list (list N * Event) := {}.\nDefinition obs : list Obs := {}.\n",
+                    out.defs, coq_list(&stakes), coq_list(&out.evs), coq_list(&out.obs));
+                if out.nontrivial && seen.lock().unwrap().insert(out.evs.join(";")) { e.stat("distinct_nontrivial", 1); }
+                if ADMISSIBLE.with(|c| c.get()) { e.stat("admissible (within the fault model)", 1); }
+                let c06 = CLEAN_LEADER.with(|c| c.get());
+                let verdict = match c06 { Some(r) => format!("step_verdict cmt {} evs obs ++ [b2n (mon_c06_make obs {})]", cfg.me, r), None => format!("step_verdict cmt {} evs obs ++ [1]", cfg.me) };
+                e.case(k, &defs, &verdict, json!({"case": k, "script": script, "committee_stakes": cfg.stakes, "me": cfg.me, "admissible": ADMISSIBLE.with(|c| c.get()), "events": out.human, "messages_hex": out.hexmsgs}));
+            }
+            emit
+        }).unwrap()
+    }).collect();
+    let emits: Vec<Emit> = workers.into_iter().map(|w| w.join().expect("step worker thread panicked")).collect();
     for (i, e) in emits.into_iter().enumerate() { e.finish(&o.out, &format!("step_{}", i), o.seed); }
     let _ = std::fs::remove_dir_all(&dbroot);
 }
